@@ -42,7 +42,7 @@ manifest = {
     "hooks": {
         "guard": "--cfg gmsol_verif",
         "enable": "RUSTFLAGS '--cfg gmsol_verif' set by /verif/harness/.cargo/config.toml; the harness crates have path dependencies on /repo, so every check recompiles /repo's working tree with the hooks on",
-        "baseline_off_cmd": "cd /repo && cargo nextest run --workspace --no-fail-fast --test-threads 8 --offline || cargo test --workspace --no-fail-fast --offline",
+        "baseline_off_cmd": "cd /repo && if cargo nextest --version >/dev/null 2>&1 && [ -f /w/lib/nextest.toml ]; then cargo nextest run --workspace --no-fail-fast --tool-config-file pb:/w/lib/nextest.toml --profile pb --test-threads 8 --offline; else cargo test --workspace --no-fail-fast --offline; fi",
         "source_commits": json.load(open(os.path.join(ROOT, "tools", "hook_commits.json"))),
         "add_only": True,
     },
